@@ -145,13 +145,122 @@ def nontrivial(case, go, mo):
     return True
 
 
+# ---------------------------------------------------------------- codec transforms: $encode json|yaml|toml and $decode
+# The json/yaml/toml text codecs are parameters of the model (theorem C14_decode_encode takes the codec's
+# round trip as a hypothesis).  What the hypothesis says about the real libraries is measured here:
+#   (1) `$encode: f` of v parses, with an independent parser of f, to v      ("the standard encoding it names")
+#   (2) `$decode: f` of that text evaluates to v                             ("$decode inverts $encode")
+CODECS = ["json", "yaml", "toml", "yml", "jsonl", "json-pretty"]
+CSTR = ["x", "", "a b", "é", "123", "true", "null", "~", "1.0", "2001-12-14", "# c", ": ", "- x", "a: b", "---", "+++", "=", "k = 1",
+        "line1\nline2", "line1\nline2\n", "x\n", "q\n\n", "#!/bin/sh\necho hi\n", " lead", "trail ", "\ttab", "'", "\"", "\\", "[a]", "{a: b}", "日本"]
+
+
+def codec_value(rng, depth=2):
+    r = rng.random()
+    if depth <= 0 or r < 0.45:
+        q = rng.random()
+        if q < 0.6:
+            return rng.choice(CSTR)
+        if q < 0.8:
+            return rng.choice([0, 1, -7, 2**31, 2**53 + 1, -2**63, 2**63 - 1])
+        if q < 0.93:
+            return rng.choice([0.5, 1.5, 0.1, 1e21, 2.0, -0.25])
+        return rng.choice([True, False])
+    if r < 0.75:
+        return {rng.choice(["a", "b", "c", "k 1", "z"]): codec_value(rng, depth - 1) for _ in range(rng.randint(0, 3))}
+    return [codec_value(rng, depth - 1) for _ in range(rng.randint(0, 3))]
+
+
+def codec_roundtrip(rep, rng, n):
+    import formats
+    from common import run_go, load_known
+    from histcheck import to_op
+    from props.c05 import sig_yaml_merge_key, sig_yaml_leading_newline
+    known = {k["signature"]: k for k in load_known().get("open", []) if k.get("property") == "C05"}
+    vals = []
+    for _ in range(n):
+        v = {rng.choice(["a", "b", "c", "script"]): codec_value(rng, rng.randint(0, 2)) for _ in range(rng.randint(1, 3))}
+        vals.append((v, rng.choice(CODECS)))
+    enc_cases = [chain_case([{"wrap": {"$value": v, "$encode": f}}], env={}, tail=("outdocs",)) for v, f in vals]
+    enc = run_go([to_op(c, i) for i, c in enumerate(enc_cases)])
+    dec_cases, idx = [], []
+    for i, (v, f) in enumerate(vals):
+        rep.case(["codec", v, f], True, sample={"codec": f, "value": v} if i < 2 else None)
+        rep.count("codec:" + f)
+        last = ((enc.get(i) or {}).get("res") or [{}])[-1]
+        toml_able = formats.toml_ok(v)
+        yamlish = f in ("yaml", "yml")
+        kf = None
+        if yamlish and sig_yaml_merge_key([v]) and "c05.yaml_merge_key_string" in known:
+            kf = known["c05.yaml_merge_key_string"]
+        if yamlish and sig_yaml_leading_newline([v]) and "c05.yaml_leading_newline_string" in known:
+            kf = known["c05.yaml_leading_newline_string"]
+        if "ok" not in last:
+            if f == "toml" and not toml_able:
+                continue
+            if len(rep.violations) < 6:
+                rep.violation(f"$encode: {f} of a representable value failed: {last.get('err')} {last.get('msg', '')[:100]}", {"value": v, "format": f, "impl": last})
+            continue
+        out = from_wire(last["ok"][0]) if last["ok"] else None
+        text = out.get("wrap") if isinstance(out, dict) else None
+        if not isinstance(text, str):
+            rep.violation(f"$encode: {f} did not produce a string", {"value": v, "format": f, "impl": last})
+            continue
+        try:
+            indep = formats.load_all(f, text)
+            good = len(indep) == 1 and formats.same(indep[0], v)
+        except Exception as e:
+            good = False
+        if not good:
+            if kf:
+                rep.known_finding(kf["id"], kf["what_fails"])
+            elif len(rep.violations) < 6:
+                rep.violation(f"$encode: {f} is not the standard {f} encoding of the value (independent parser disagrees)", {"value": v, "format": f, "text": text})
+            continue
+        dec_cases.append(chain_case([{"wrap": {"$value": text, "$decode": f}}], env={}, tail=("outdocs",)))
+        idx.append((i, text, kf))
+    dec = run_go([to_op(c, j) for j, c in enumerate(dec_cases)])
+    for j, (i, text, kf) in enumerate(idx):
+        v, f = vals[i]
+        last = ((dec.get(j) or {}).get("res") or [{}])[-1]
+        rep.traces += 1
+        got = None
+        if "ok" in last and last["ok"]:
+            o = from_wire(last["ok"][0])
+            got = o.get("wrap") if isinstance(o, dict) else None
+        # a decoded string that is directive-shaped is evaluated / rejected by design: skip those
+        if "ok" not in last and last.get("err") in ("invalidDirective", "requiredField"):
+            continue
+        want = v
+        if not ("ok" in last and formats.same(got, want)) and not (want == {} and got is None):
+            if kf:
+                rep.known_finding(kf["id"], kf["what_fails"])
+            elif len(rep.violations) < 6:
+                rep.violation(f"$decode: {f} does not invert $encode: {f}", {"value": v, "format": f, "text": text, "decoded": got, "impl": last})
+
+
 def run(rep):
     standard_run(rep, PID, gen_case, nontrivial, "$encode result differs", 4000, 150000,
                  "scalars, flat and nested maps/lists (list-valued and empty-string entries) x every transform and stacks of up "
                  "to 3, valid and invalid arguments; judged by the model (Lean base64/SHA-256) and by independent Python "
                  "implementations (hashlib, base64); codec formats (json/yaml/toml text) are compared in C05/C04",
                  oracle=oracle)
+    import random
+    codec_roundtrip(rep, random.Random(rep.seed + 77), 1500 if rep.tier == "quick" else 40000)
+    rep.assumptions.append("json/yaml/toml text codecs are parameters of the model; their standard-ness and the $decode inverse are measured "
+                           "by the codec stage (independent Python parsers), not proved")
 
 
 def replay(rep, payload):
+    if "text" in payload or ("format" in payload and "value" in payload):
+        import random
+        from common import run_go
+        from histcheck import to_op
+        v, f = payload["value"], payload["format"]
+        e = run_go([to_op(chain_case([{"wrap": {"$value": v, "$encode": f}}], env={}, tail=("outdocs",)), 0)])
+        print("encode:", e.get(0))
+        if "text" in payload:
+            d = run_go([to_op(chain_case([{"wrap": {"$value": payload["text"], "$decode": f}}], env={}, tail=("outdocs",)), 0)])
+            print("decode:", d.get(0))
+        return 1
     return standard_replay(payload, oracle=oracle)
